@@ -600,7 +600,10 @@ func compareAndWriteFile(filePath string, b []byte) (bool, error) {
 			return false, err
 		}
 
-		if err := os.WriteFile(filePath, b, 0775); err != nil {
+		// Write under a temporary name and rename into place, so that a crash (or
+		// a failed write) never leaves an empty or partial file under the final
+		// name: readers treat unparsable metadata as fatal.
+		if err := writeFileAtomic(filePath, b, 0775); err != nil {
 			return false, err
 		}
 		return true, nil
@@ -631,4 +634,28 @@ func compareAndWriteFile(filePath string, b []byte) (bool, error) {
 		return false, err
 	}
 	return true, nil
+}
+
+// writeFileAtomic creates filePath with content b by writing a temporary file in
+// the same directory and renaming it. The temporary name matches no metadata
+// suffix, so a leftover is ignored by Reload.
+func writeFileAtomic(filePath string, b []byte, perm os.FileMode) error {
+	tmp, err := os.CreateTemp(filepath.Dir(filePath), ".tmp-*")
+	if err != nil {
+		return err
+	}
+	_, err = tmp.Write(b)
+	if err == nil {
+		err = tmp.Chmod(perm)
+	}
+	if cerr := tmp.Close(); err == nil {
+		err = cerr
+	}
+	if err == nil {
+		err = os.Rename(tmp.Name(), filePath)
+	}
+	if err != nil {
+		os.Remove(tmp.Name())
+	}
+	return err
 }
